@@ -24,6 +24,7 @@ pub fn subtype(gamma: &mut Gamma, env: &TypeEnv, t1: &Type, t2: &Type) -> Result
         t1,
         t2,
         &RecursionDepth::new(),
+        &mut Vec::new(),
     )
 }
 /// Check if t1 <: t2, and report the special opt rule as `Slience`, `Warning` or `Error`.
@@ -34,7 +35,15 @@ pub fn subtype_with_config(
     t1: &Type,
     t2: &Type,
 ) -> Result<()> {
-    subtype_(report, gamma, env, t1, t2, &RecursionDepth::new())
+    subtype_(
+        report,
+        gamma,
+        env,
+        t1,
+        t2,
+        &RecursionDepth::new(),
+        &mut Vec::new(),
+    )
 }
 
 /// A single incompatibility found during subtype checking.
@@ -282,9 +291,10 @@ fn subtype_collect_(
         (Null, Opt(_)) => (),
         // For opt rules we delegate to the existing subtype_ to test the condition,
         // since these are probes, not things that generate multiple independent errors.
-        (Opt(ty1), Opt(ty2)) if subtype_(report, gamma, env, ty1, ty2, depth).is_ok() => {}
+        (Opt(ty1), Opt(ty2))
+            if subtype_(report, gamma, env, ty1, ty2, depth, &mut vec![]).is_ok() => {}
         (_, Opt(ty2))
-            if subtype_(report, gamma, env, t1, ty2, depth).is_ok()
+            if subtype_(report, gamma, env, t1, ty2, depth, &mut vec![]).is_ok()
                 && !matches!(
                     env.trace_type_with_depth(ty2, depth)
                         .map(|t| t.as_ref().clone()),
@@ -519,6 +529,7 @@ fn subtype_(
     t1: &Type,
     t2: &Type,
     depth: &RecursionDepth,
+    trail: &mut Vec<(Type, Type)>,
 ) -> Result<()> {
     let _guard = depth.guard()?;
     use TypeInner::*;
@@ -529,6 +540,9 @@ fn subtype_(
         if !gamma.insert((t1.clone(), t2.clone())) {
             return Ok(());
         }
+        // `trail` lists, in insertion order, the pairs this check has added to `gamma`.
+        let mark = trail.len();
+        trail.push((t1.clone(), t2.clone()));
         let res = match (t1.as_ref(), t2.as_ref()) {
             (Var(id), _) => subtype_(
                 report,
@@ -537,6 +551,7 @@ fn subtype_(
                 env.rec_find_type_with_depth(id, depth).unwrap(),
                 t2,
                 depth,
+                trail,
             ),
             (_, Var(id)) => subtype_(
                 report,
@@ -545,13 +560,33 @@ fn subtype_(
                 t1,
                 env.rec_find_type_with_depth(id, depth).unwrap(),
                 depth,
+                trail,
             ),
-            (Knot(id), _) => subtype_(report, gamma, env, &find_type(id).unwrap(), t2, depth),
-            (_, Knot(id)) => subtype_(report, gamma, env, t1, &find_type(id).unwrap(), depth),
+            (Knot(id), _) => subtype_(
+                report,
+                gamma,
+                env,
+                &find_type(id).unwrap(),
+                t2,
+                depth,
+                trail,
+            ),
+            (_, Knot(id)) => subtype_(
+                report,
+                gamma,
+                env,
+                t1,
+                &find_type(id).unwrap(),
+                depth,
+                trail,
+            ),
             (_, _) => unreachable!(),
         };
         if res.is_err() {
-            gamma.remove(&(t1.clone(), t2.clone()));
+            // Pairs accepted while this one was assumed may depend on it: retract them too.
+            for pair in trail.drain(mark..) {
+                gamma.remove(&pair);
+            }
         }
         return res;
     }
@@ -560,11 +595,13 @@ fn subtype_(
         (Empty, _) => Ok(()),
         (Nat, Int) => Ok(()),
         (Service(_), Principal) => Ok(()),
-        (Vec(ty1), Vec(ty2)) => subtype_(report, gamma, env, ty1, ty2, depth),
+        (Vec(ty1), Vec(ty2)) => subtype_(report, gamma, env, ty1, ty2, depth, trail),
         (Null, Opt(_)) => Ok(()),
-        (Opt(ty1), Opt(ty2)) if subtype_(report, gamma, env, ty1, ty2, depth).is_ok() => Ok(()),
+        (Opt(ty1), Opt(ty2)) if subtype_(report, gamma, env, ty1, ty2, depth, trail).is_ok() => {
+            Ok(())
+        }
         (_, Opt(ty2))
-            if subtype_(report, gamma, env, t1, ty2, depth).is_ok()
+            if subtype_(report, gamma, env, t1, ty2, depth, trail).is_ok()
                 && !matches!(
                     env.trace_type_with_depth(ty2, depth)?.as_ref(),
                     Null | Reserved | Opt(_)
@@ -585,11 +622,10 @@ fn subtype_(
             let fields: HashMap<_, _> = fs1.iter().map(|Field { id, ty }| (id, ty)).collect();
             for Field { id, ty: ty2 } in fs2 {
                 match fields.get(id) {
-                    Some(ty1) => {
-                        subtype_(report, gamma, env, ty1, ty2, depth).with_context(|| {
+                    Some(ty1) => subtype_(report, gamma, env, ty1, ty2, depth, trail)
+                        .with_context(|| {
                             format!("Record field {id}: {ty1} is not a subtype of {ty2}")
-                        })?
-                    }
+                        })?,
                     None => {
                         if !matches!(
                             env.trace_type_with_depth(ty2, depth)?.as_ref(),
@@ -606,11 +642,10 @@ fn subtype_(
             let fields: HashMap<_, _> = fs2.iter().map(|Field { id, ty }| (id, ty)).collect();
             for Field { id, ty: ty1 } in fs1 {
                 match fields.get(id) {
-                    Some(ty2) => {
-                        subtype_(report, gamma, env, ty1, ty2, depth).with_context(|| {
+                    Some(ty2) => subtype_(report, gamma, env, ty1, ty2, depth, trail)
+                        .with_context(|| {
                             format!("Variant field {id}: {ty1} is not a subtype of {ty2}")
-                        })?
-                    }
+                        })?,
                     None => {
                         return Err(Error::msg(format!(
                             "Variant field {id} not found in the expected type"
@@ -624,11 +659,10 @@ fn subtype_(
             let meths: HashMap<_, _> = ms1.iter().cloned().collect();
             for (name, ty2) in ms2 {
                 match meths.get(name) {
-                    Some(ty1) => {
-                        subtype_(report, gamma, env, ty1, ty2, depth).with_context(|| {
+                    Some(ty1) => subtype_(report, gamma, env, ty1, ty2, depth, trail)
+                        .with_context(|| {
                             format!("Method {name}: {ty1} is not a subtype of {ty2}")
-                        })?
-                    }
+                        })?,
                     None => {
                         return Err(Error::msg(format!(
                             "Method {name} is only in the expected type"
@@ -646,15 +680,15 @@ fn subtype_(
             let args2 = to_tuple(&f2.args);
             let rets1 = to_tuple(&f1.rets);
             let rets2 = to_tuple(&f2.rets);
-            subtype_(report, gamma, env, &args2, &args1, depth)
+            subtype_(report, gamma, env, &args2, &args1, depth, trail)
                 .context("Subtype fails at function input type")?;
-            subtype_(report, gamma, env, &rets1, &rets2, depth)
+            subtype_(report, gamma, env, &rets1, &rets2, depth, trail)
                 .context("Subtype fails at function return type")?;
             Ok(())
         }
         // This only works in the first order case, but service constructor only appears at the top level according to the spec.
-        (Class(_, t), _) => subtype_(report, gamma, env, t, t2, depth),
-        (_, Class(_, t)) => subtype_(report, gamma, env, t1, t, depth),
+        (Class(_, t), _) => subtype_(report, gamma, env, t, t2, depth, trail),
+        (_, Class(_, t)) => subtype_(report, gamma, env, t1, t, depth, trail),
         (Unknown, _) => unreachable!(),
         (_, Unknown) => unreachable!(),
         (_, _) => Err(Error::msg(format!("{t1} is not a subtype of {t2}"))),
